@@ -1,6 +1,7 @@
 package harness
 
 import (
+	"path/filepath"
 	"fmt"
 	"os"
 	"strings"
@@ -359,6 +360,28 @@ var scenarios = map[string]func(t *testing.T, rep *Report, root string){
 		w.observe()
 		w.S.StopAll()
 	},
+	// a snapshot taken while a membership change is appended but not committed: it must carry the
+	// committed configuration, not the one the leader already uses
+	"snapshot-under-pending-membership-change": func(t *testing.T, rep *Report, root string) {
+		w := newWorld(t, rep, "snapshot-under-pending-membership-change", root, SimOpts{SnapEvery: 3}, []uint64{1})
+		w.prof = "churn"
+		w.waitLeader(2 * time.Second)
+		w.S.Nodes[1].FSM.GateApply = make(chan struct{})
+		w.submit("rep", 1, 0, false) // committed at once (sole voter); its Apply parks
+		w.auto(50*time.Millisecond, nil, nil)
+		w.submit("add", 1, 2, true) // appended, adopted by the leader; node 2 does not exist: never committed
+		w.auto(50*time.Millisecond, nil, nil)
+		close(w.S.Nodes[1].FSM.GateApply)
+		w.S.Nodes[1].FSM.GateApply = nil
+		w.auto(300*time.Millisecond, nil, nil)
+		w.checkSnapshots()
+		if n := countSnapshots(w.S.Nodes[1].Dir); n == 0 {
+			rep.Notes = append(rep.Notes, "snapshot-under-pending-membership-change: no snapshot was taken (scenario did not reach its window)")
+		} else {
+			rep.Hit("snapshot-under-pending-change:snapshots-seen")
+		}
+		w.S.StopAll()
+	},
 	// S4: nodes two configurations apart: two disjoint quorums, two operations at one index
 	"S4-membership-two-apart": func(t *testing.T, rep *Report, root string) {
 		w := newWorld(t, rep, "S4-membership-two-apart", root, SimOpts{}, []uint64{1, 2, 3})
@@ -503,4 +526,15 @@ func TestE4Directed(t *testing.T) {
 		rep.Write()
 	}
 	os.Remove(os.Getenv("VERIF_OUT") + ".current")
+}
+
+func countSnapshots(nodeDir string) int {
+	ents, _ := os.ReadDir(filepath.Join(nodeDir, "snapshots"))
+	n := 0
+	for _, e := range ents {
+		if e.IsDir() && strings.HasPrefix(e.Name(), "snapshot-") {
+			n++
+		}
+	}
+	return n
 }
